@@ -9,8 +9,22 @@ CHECKS = {
               "(ranges, nesting, order, gaps, element shapes, exact cover) or positioned renderable error. "
               "Non-trivial: parses with >=1 directive, or fails after >=1 complete directive; distinct by input bytes."),
         assumptions=["library-level: parser.New(text).Advance(); ParseFile() is the entry every command uses (syntax.ParseFile / parseRec)"],
-        quick=dict(tests=[dict(name="TestC07", cases=48000)]),
-        thorough=dict(tests=[dict(name="TestC07", cases=800000)],
+        quick=dict(tests=[dict(name="TestC07", cases=480000)]),
+        thorough=dict(tests=[dict(name="TestC07", cases=6000000)],
                       fuzz=[dict(name="FuzzC07", seconds=90, seed_corpus=True), dict(name="FuzzC07", seconds=60, seed_corpus=False)]),
+    ),
+    "C11": dict(
+        level="exploration",
+        rule=("Inputs: (start, end, interval, last) biased to month/quarter/year ends, leap days, week boundaries, start>end, 1900-2100; "
+              "thorough adds a bounded exhaustive sweep (every start 2019-12-20..2021-03-10 x length -3..430 x 6 intervals x last in {0,1,2,5}). "
+              "Oracle: own civil calendar (no time.AddDate): invariants stated in the property checked directly on date.NewPartition's output "
+              "(consecutive, disjoint, covering, never straddling a unit, adjacent periods in different units, exact --last count), equality with the "
+              "reference partition, and Align(d) for every d in [start-40,end+40]; CLI: column headers of `knut balance` for drawn --from/--to/interval/--last. "
+              "Non-trivial: window crosses a unit boundary with a clipped first or last period, contains Feb 29, or start>end (library); "
+              ">=2 periods with a window flag or --last (CLI)."),
+        assumptions=["negative --last values are outside the statement and not generated", "dates 1900-2100"],
+        quick=dict(tests=[dict(name="TestC11", cases=160000), dict(name="TestC11CLI", cases=1600)]),
+        thorough=dict(tests=[dict(name="TestC11", cases=1600000), dict(name="TestC11CLI", cases=16000),
+                             dict(name="TestSweepC11", cases=1, env=dict(VERIF_SWEEP=1))]),
     ),
 }
